@@ -18,7 +18,7 @@ import (
 
 func init() {
 	Register("C12", &Scenario{Name: "udp-random", Weight: 10, Run: func(c *Ctx, v int) { runC12(c, -1) }})
-	Register("C12", &Scenario{Name: "udp-directed", Directed: 6, Run: func(c *Ctx, v int) { runC12(c, v) }})
+	Register("C12", &Scenario{Name: "udp-directed", Directed: 9, Run: func(c *Ctx, v int) { runC12(c, v) }})
 }
 
 var (
@@ -928,5 +928,80 @@ func (d *c12) directed(v int) {
 		d.settle()
 		d.poll()
 		d.writeOp(s)
+	case 6: // leave, block and unblock after joining on an interface that is not the routing default
+		s := d.addPeer([4]byte{}, 7000)
+		g, src := c12Groups[0], c12Senders[1].ip
+		must := func(what string, err error) {
+			if err != nil {
+				d.c.Failf("membership-call-failed", "socket %d: %s failed: %v", s.ix, what, err)
+			}
+		}
+		must("JoinOn(eth1)", s.peer.JoinOn(multicast.IP(ipStr(g)), "eth1"))
+		s.joins = append(s.joins, c12Join{group: g, ifix: 3})
+		must("BlockSource after JoinOn(eth1)", s.peer.BlockSource(multicast.IP(ipStr(g)), multicast.SourceIP(ipStr(src))))
+		s.joins[0].blocked = [][4]byte{src}
+		d.send(1, g, 7000, 40)
+		d.settle()
+		must("UnblockSource after JoinOn(eth1)", s.peer.UnblockSource(multicast.IP(ipStr(g)), multicast.SourceIP(ipStr(src))))
+		s.joins[0].blocked = nil
+		d.startRead(s)
+		d.send(1, g, 7000, 40)
+		d.settle()
+		d.poll()
+		must("Leave after JoinOn(eth1)", s.peer.Leave(multicast.IP(ipStr(g))))
+		s.joins = nil
+		d.send(1, g, 7000, 40)
+		d.settle()
+	case 7: // a source-specific membership lapses with its last source; the group is then joined elsewhere
+		s := d.addPeer([4]byte{}, 7000)
+		g, src := c12Groups[1], c12Senders[1].ip
+		must := func(what string, err error) {
+			if err != nil {
+				d.c.Failf("membership-call-failed", "socket %d: %s failed: %v", s.ix, what, err)
+			}
+		}
+		must("JoinSource (default interface)", s.peer.JoinSource(multicast.IP(ipStr(g)), multicast.SourceIP(ipStr(src))))
+		must("LeaveSource", s.peer.LeaveSource(multicast.IP(ipStr(g)), multicast.SourceIP(ipStr(src))))
+		must("JoinSourceOn(eth1)", s.peer.JoinSourceOn(multicast.IP(ipStr(g)), multicast.SourceIP(ipStr(src)), "eth1"))
+		must("LeaveSource", s.peer.LeaveSource(multicast.IP(ipStr(g)), multicast.SourceIP(ipStr(src))))
+		must("Join (default interface)", s.peer.Join(multicast.IP(ipStr(g))))
+		s.joins = append(s.joins, c12Join{group: g, ifix: 2})
+		must("BlockSource on the default interface's membership", s.peer.BlockSource(multicast.IP(ipStr(g)), multicast.SourceIP(ipStr(c12Senders[0].ip))))
+		s.joins[0].blocked = [][4]byte{c12Senders[0].ip}
+		d.startRead(s)
+		d.send(0, g, 7000, 30)
+		d.send(2, g, 7000, 30)
+		d.settle()
+		d.poll()
+		must("Leave", s.peer.Leave(multicast.IP(ipStr(g))))
+		s.joins = nil
+		d.send(2, g, 7000, 30)
+		d.settle()
+	case 8: // the same group on two interfaces, left one after the other
+		s := d.addPeer([4]byte{}, 7000)
+		g := c12Groups[2]
+		must := func(what string, err error) {
+			if err != nil {
+				d.c.Failf("membership-call-failed", "socket %d: %s failed: %v", s.ix, what, err)
+			}
+		}
+		must("JoinOn(eth0)", s.peer.JoinOn(multicast.IP(ipStr(g)), "eth0"))
+		must("JoinOn(eth1)", s.peer.JoinOn(multicast.IP(ipStr(g)), "eth1"))
+		s.joins = append(s.joins, c12Join{group: g, ifix: 2}, c12Join{group: g, ifix: 3})
+		d.startRead(s)
+		d.send(1, g, 7000, 20)
+		d.settle()
+		d.poll()
+		must("Leave (the most recent join: eth1)", s.peer.Leave(multicast.IP(ipStr(g))))
+		s.joins = s.joins[:1]
+		d.send(1, g, 7000, 20) // arrives on eth1: no longer a member there
+		d.startRead(s)
+		d.send(0, g, 7000, 20) // arrives on eth0: still a member
+		d.settle()
+		d.poll()
+		must("Leave (eth0)", s.peer.Leave(multicast.IP(ipStr(g))))
+		s.joins = nil
+		d.send(0, g, 7000, 20)
+		d.settle()
 	}
 }
